@@ -181,7 +181,7 @@ def target_names(kernel, tier):
 def cells(tier, seed):
     k = refs.cat(seed)
     # history "block sampler inside HybridGibbs": the kernel is re-targeted to a new conditional before every transition
-    for kernel in ("MH", "PCN"):
+    for kernel in ("MH", "PCN", "MALA"):
         for sc in ("s0.3", "s0.6"):
             for start in (0, 1):
                 yield {"iface": "exp", "kernel": kernel, "hist": "gibbs-block", "scale": sc, "start": start, "cat": k, "tier": tier,
@@ -246,6 +246,29 @@ class Adapter:
             # The sampler must refuse it, or account for q(x|x')/q(x'|x) in its acceptance probability.
             dim = self.dim
             self.proposal = cuqi.distribution.UserDefinedDistribution(dim=dim, sample_func=lambda: 0.5 + np.random.standard_normal(dim))
+
+    def construct_after_sibling(self, x):
+        """A SIBLING sampler of the same class on the SAME target object, with another scale, is built and takes one step
+        first (two independent sampler objects in one process must not influence each other); then the sampler under test."""
+        other = copy.deepcopy(self.scale) * 0.25
+        kw = {"proposal": self.proposal} if self.proposal is not None else {}
+        xs = np.array(x, dtype=float)
+        try:
+            if self.iface == "exp":
+                sib = self.cls(self.tgt.obj, scale=other, initial_point=xs, **kw)
+                sib.initialize()
+            else:
+                target = self.tgt.pair if self.cell.get("form") == "tuple" else self.tgt.obj
+                sib = self.cls(target, scale=other, x0=xs, **kw)
+            st = Stream(normal=lambda n, i: 0.25 * np.ones(n))
+            with st.installed():
+                if self.iface == "exp":
+                    sib.step()
+                else:
+                    sib.sample(2)
+        except Exception:
+            pass          # the sibling itself is not under test here
+        return self.construct(x)
 
     def construct(self, x):
         x = np.array(x, dtype=float)
@@ -373,6 +396,8 @@ def answers_for(d, tier):
 def histories(cell):
     tier, kernel, iface = cell["tier"], cell["kernel"], cell["iface"]
     hs = [("fresh", None)]
+    if cell["scale"] == "s0.6" and not cell.get("x0rep") and not cell.get("form"):
+        hs.insert(0, ("sibling", None))      # first: the sibling must be the first sampler ever built on this target object
     if cell.get("x0rep"):
         return hs         # the representation of the initial point only matters for a freshly constructed sampler
     Nbs = (2,) if tier == "quick" else (1, 3)
@@ -426,6 +451,8 @@ def eval_cell(cell):
         try:
             if hkind == "fresh":
                 pos = lambda x: ad.construct(x)
+            elif hkind == "sibling":
+                pos = lambda x: ad.construct_after_sibling(x)
             else:
                 Nb, pattern = hpar
                 base = ad.construct(X[0])
@@ -760,6 +787,13 @@ def eval_gibbs_block(cell):
     def logpi(x, sval):
         return loglik(x) + refs.gauss_logpdf(x, np.zeros(2), np.eye(2) / sval)
 
+    def gradpi(x, sval):
+        return A.T @ (dat - A @ x) / 0.5 - sval * x
+
+    def logq_mala(y, x, sval):       # Langevin proposal N(y; x + scale/2 grad, scale I)
+        r = y - (x + 0.5 * scale * gradpi(x, sval))
+        return float(-0.5 * r @ r / scale)
+
     def run(d):
         s = cuqi.distribution.Gamma(2, 1, name="s")
         x = cuqi.distribution.Gaussian(np.zeros(2), cov=lambda s: 1 / s, name="x")
@@ -815,6 +849,10 @@ def eval_gibbs_block(cell):
                 if kernel == "MH":
                     prop_ref = xt + scale * xi
                     a_ref = float(min(1.0, np.exp(logpi(x_new, s_cur) - logpi(xt, s_cur))))
+                elif kernel == "MALA":
+                    prop_ref = xt + 0.5 * scale * gradpi(xt, s_cur) + np.sqrt(scale) * xi
+                    a_ref = float(min(1.0, np.exp(logpi(x_new, s_cur) - logpi(xt, s_cur)
+                                                  + logq_mala(xt, x_new, s_cur) - logq_mala(x_new, xt, s_cur))))
                 else:
                     prop_ref = np.sqrt(1 - scale ** 2) * xt + scale * np.sqrt(1.0 / s_cur) * xi
                     a_ref = float(min(1.0, np.exp(loglik(x_new) - loglik(xt))))
